@@ -350,12 +350,13 @@ theorem creation_height_is_confirmation_height (h csv : Nat) (offered : Bool) (c
     `claimable_outpoints` (and its whole request) is removed iff its creation height is above the new tip; an awaiting
     `Claim` / `ContentiousOutpoint` event is undone iff its height is above the new tip; events mature after
     ANTI_REORG_DELAY − 1 further blocks; both disconnect paths of the monitor hand the new tip height on unchanged and
-    `transaction_unconfirmed` of a transaction confirmed at `h` acts like a disconnection down to `h − 1`. -/
-theorem disconnect_rule (created s n h : Nat) :
+    `transaction_unconfirmed` of a transaction confirmed at `h` acts like a disconnection down to `h − 1`; a pending request
+    is re-issued in the block at height `h` iff its timer is `≤ h` (translated `cur_height >= request.timer()`). -/
+theorem disconnect_rule (created s n h t : Nat) :
     (claimDropped created n = true ↔ n < created) ∧ (awaitingDropped s n = true ↔ n < s) ∧
     (handlerThresholdReached s h = true ↔ s + ANTI_REORG_DELAY - 1 ≤ h) ∧
-    monitorDisconnectNewBest n = n ∧ unconfirmedNewBest h = h - 1 :=
-  ⟨claimDropped_iff created n, awaitingDropped_iff s n, reached_iff s h, rfl, rfl⟩
+    monitorDisconnectNewBest n = n ∧ unconfirmedNewBest h = h - 1 ∧ (timerExpired h t = true ↔ t ≤ h) :=
+  ⟨claimDropped_iff created n, awaitingDropped_iff s n, reached_iff s h, rfl, rfl, timerExpired_iff h t⟩
 
 /-- **justice_claim_pending** — for EVERY world (claimable outputs, second-stage transactions, CSV), EVERY start height and
     EVERY history of block connections (with any consistent mix of the cheater's commitment / second-stage transactions and
